@@ -104,7 +104,7 @@ func Execute(sc Scenario) *Run {
 	for i, op := range sc.Ops {
 		run := func(i int, op HubOp) {
 			rec := OpRec{Op: op, Start: time.Since(f.start), StateBefore: -1}
-			if op.K == "cancel" && op.X != op.Y && !f.Nodes[op.X].Down {
+			if op.K == "cancel" && op.X != op.Y && !f.Nodes[op.X].IsDown() {
 				if c := f.Nodes[op.X].Hub.VerifRegistry()[f.Nodes[op.Y].SKI]; c != nil {
 					st, _ := c.ShipHandshakeState()
 					rec.Conn, rec.StateBefore = c, int(st)
@@ -139,7 +139,7 @@ func (r *Run) apply(op HubOp) bool {
 	}
 	nx, ny := f.Nodes[op.X], f.Nodes[op.Y]
 	hubOp := op.K == "register" || op.K == "unregister" || op.K == "cancel" || op.K == "disconnect" || op.K == "shutdown"
-	if hubOp && nx.Down {
+	if hubOp && nx.IsDown() {
 		return false
 	}
 	switch op.K {
@@ -165,7 +165,7 @@ func (r *Run) apply(op HubOp) bool {
 		nx.Hub.DisconnectSKI(ny.SKI, "test")
 	case "shutdown":
 		nx.Hub.Shutdown()
-		nx.Down = true
+		nx.down.Store(true)
 	case "appear":
 		if op.X == op.Y {
 			return false
@@ -188,6 +188,25 @@ func (r *Run) apply(op HubOp) bool {
 		p := f.Proxies[[2]int{op.X, op.Y}]
 		p.SetRefuse(true)
 		go func() { time.Sleep(time.Duration(300+op.WaitMs) * time.Millisecond); p.SetRefuse(false) }()
+	case "detail":
+		if nx.IsDown() || op.X == op.Y {
+			return false
+		}
+		_ = nx.Hub.PairingDetailForSki(ny.SKI).State()
+	case "autoaccept":
+		if nx.IsDown() {
+			return false
+		}
+		nx.Hub.SetAutoAccept(op.WaitMs%2 == 0)
+	case "payload":
+		if nx.IsDown() || op.X == op.Y {
+			return false
+		}
+		w := nx.App.Writer(ny.SKI)
+		if w == nil {
+			return false
+		}
+		w.WriteShipMessageWithPayload([]byte(fmt.Sprintf(`{"datagram":{"from":%d,"n":%d}}`, op.X, op.WaitMs)))
 	case "wait":
 	default:
 		return false
